@@ -305,6 +305,23 @@ def value_shapes(tier):
     add("C07 value bstring octets", [], 'v', 'OCTET STRING', "'1010010111111111'B", V('bytes', by=[0xA5, 0xFF]), 0)
     add("C07 value named bits", ['Bb ::= BIT STRING { r(0), s(2), t(5) }'], 'v', 'Bb', '{ r, t }', V('bits', bits=[True, False, False, False, False, True]), 0)
     add("C07 value named bits empty", ['Bb ::= BIT STRING { r(0), s(2) }'], 'v', 'Bb', '{ }', V('bits', bits=[], min_only=True), 0)
+    # named bits declared in any order, with gaps: the value has max(position)+1 bits
+    import itertools as _it
+    for positions in ([0, 2, 5], [3, 0, 1, 2]) if tier == 'quick' else ([0, 2, 5], [3, 0, 1, 2], [7, 1], [0, 1, 2, 9]):
+        names = ['r', 's', 't', 'u'][:len(positions)]
+        perms = list(_it.permutations(range(len(positions))))
+        if tier == 'quick':
+            perms = perms[::max(1, len(perms) // 4)]
+        for perm in perms:
+            decl = ', '.join(f"{names[i]}({positions[i]})" for i in perm)
+            for sel in ([0], [len(positions) - 1], list(range(len(positions)))):
+                top = max(positions)
+                bits = [any(positions[i] == k for i in sel) for k in range(top + 1)]
+                chosen = ', '.join(names[i] for i in sel)
+                order = ''.join(names[i] for i in perm)
+                add(f"C07 value named bits order[{order}] sel[{chosen}]", [f"Bb ::= BIT STRING {{ {decl} }}"], 'v', 'Bb', f"{{ {chosen} }}", V('bits', bits=bits), 0)
+                add(f"C07 default named bits order[{order}] sel[{chosen}]", [f"Bb ::= BIT STRING {{ {decl} }}", f"Ss ::= SEQUENCE {{ x Bb DEFAULT {{ {chosen} }} }}"], None, None, None, V('bits', bits=bits), 0, dflt='ss_x_default')
+                add(f"C07 default inline named bits order[{order}] sel[{chosen}]", [f"Ss ::= SEQUENCE {{ x BIT STRING {{ {decl} }} DEFAULT {{ {chosen} }} }}"], None, None, None, V('bits', bits=bits), 0, dflt='ss_x_default')
     add("C07 value OID numbers", [], 'v', 'OBJECT IDENTIFIER', '{ 1 3 6 1 }', V('oid', arcs=[1, 3, 6, 1]), 0)
     add("C07 value OID names", [], 'v', 'OBJECT IDENTIFIER', '{ iso standard 8571 2 }', V('oid', arcs=[1, 0, 8571, 2]), 0)
     add("C07 value OID name(number)", [], 'v', 'OBJECT IDENTIFIER', '{ itu-t(0) identified-organization(4) etsi(0) 5 }', V('oid', arcs=[0, 4, 0, 5]), 0)
